@@ -36,12 +36,21 @@ func (qs *queryResponseStream) Stream(resp *serf.QueryResponse) {
 	respCh := resp.ResponseCh()
 	for {
 		select {
-		case a := <-ackCh:
+		case a, ok := <-ackCh:
+			if !ok {
+				// Closed by Serf when the query ended, nothing more to read
+				ackCh = nil
+				continue
+			}
 			if err := qs.sendAck(a); err != nil {
 				qs.logger.Printf("[ERR] agent.ipc: Failed to stream ack to %v: %v", qs.client, err)
 				return
 			}
-		case r := <-respCh:
+		case r, ok := <-respCh:
+			if !ok {
+				respCh = nil
+				continue
+			}
 			if err := qs.sendResponse(r.From, r.Payload); err != nil {
 				qs.logger.Printf("[ERR] agent.ipc: Failed to stream response to %v: %v", qs.client, err)
 				return
